@@ -379,7 +379,7 @@ fn run_case(case: &str, wasm: &[u8], kind_imp: bool, pick: u64, seed: u64, stats
     }
     // ---- behaviour: specified module vs real output
     let req = format!(
-        "replace {} {} {} 2 40 {} ;; {} || {}",
+        "replace {} {} {} 2 300 {} ;; {} || {}",
         if kind_imp { "imp" } else { "exp" },
         target,
         seed % 1000000007,
